@@ -197,12 +197,12 @@ func (c *Ctx) eval(env *Env, e ast.Expr) Val {
 		switch s := b.(type) {
 		case SliceV:
 			h := c.heap(env.st, "H."+string(s.Elem), heapSort(s.Elem))
-			return sel(sel(h, s.ID), app(SInt, "+", s.Off, i))
+			return c.sel(c.sel(h, s.ID), addInt(s.Off, i))
 		case SeqV:
-			return sel(s.Arr, app(SInt, "+", s.Off, i))
+			return c.sel(s.Arr, addInt(s.Off, i))
 		case T:
 			if s.K.isArr() {
-				return sel(s, i)
+				return c.sel(s, i)
 			}
 		}
 		panic(vcErr("index of %T in %s", b, exprString(e)))
@@ -248,7 +248,7 @@ func (c *Ctx) ndCells(st *State, x IfaceV) T {
 	if x.Typ != nil && isNDIface(x.Typ) {
 		k = ndElemSort(x.Typ)
 	}
-	return sel(c.heap(st, "ND.cells."+string(k), heapSort(k)), x.Ref)
+	return c.sel(c.heap(st, "ND.cells."+string(k), heapSort(k)), x.Ref)
 }
 
 func (c *Ctx) ndLen(x IfaceV) T {
@@ -325,7 +325,7 @@ func (c *Ctx) evalCall(env *Env, x *ast.CallExpr) Val {
 		case IfaceV:
 			switch se.Sel.Name {
 			case "at":
-				return sel(c.ndCells(env.st, r), c.eval(env, x.Args[0]).(T))
+				return c.sel(c.ndCells(env.st, r), c.eval(env, x.Args[0]).(T))
 			}
 		}
 		panic(vcErr("method %s in contract unsupported on %T", se.Sel.Name, recv))
@@ -441,7 +441,7 @@ func (c *Ctx) evalCall(env *Env, x *ast.CallExpr) Val {
 		return ite(app(SBool, ">=", a, zeroOf(a.K)), a, app(a.K, "-", a))
 	case "upd":
 		a := c.eval(env, args[0]).(T)
-		return sto(a, c.eval(env, args[1]).(T), c.eval(env, args[2]).(T))
+		return c.sto(a, c.eval(env, args[1]).(T), c.eval(env, args[2]).(T))
 	case "seq":
 		// seq(slice or nd): the logical sequence of a slice / 1-D array
 		return c.toSeq(env, c.eval(env, args[0]))
@@ -513,7 +513,7 @@ func (c *Ctx) toSeq(env *Env, v Val) Val {
 		return s
 	case SliceV:
 		h := c.heap(env.st, "H."+string(s.Elem), heapSort(s.Elem))
-		return SeqV{sel(h, s.ID), s.Off, s.Len}
+		return SeqV{c.sel(h, s.ID), s.Off, s.Len}
 	case IfaceV:
 		return SeqV{c.ndCells(env.st, s), intLit(0), c.ndLen(s)}
 	}
@@ -669,15 +669,27 @@ func (c *Ctx) applyUF(fv FuncV, args []Val) Val {
 		sorts = append(sorts, k)
 		ts = append(ts, t)
 	}
-	if sig.Results().Len() != 1 {
-		panic(vcErr("uninterpreted function %s with %d results", fv.Sym, sig.Results().Len()))
+	n := sig.Results().Len()
+	if n == 0 {
+		panic(vcErr("uninterpreted function %s without results", fv.Sym))
 	}
-	rk, ok := sortOfBasic(sig.Results().At(0).Type())
-	if !ok {
-		panic(vcErr("uninterpreted function %s: result type", fv.Sym))
+	var out TupleV
+	for r := 0; r < n; r++ {
+		rk, ok := sortOfBasic(sig.Results().At(r).Type())
+		if !ok {
+			panic(vcErr("uninterpreted function %s: result type", fv.Sym))
+		}
+		name := fv.Sym
+		if n > 1 {
+			name = fmt.Sprintf("%s_r%d", fv.Sym, r)
+		}
+		c.declareFun(name, sorts, rk)
+		out = append(out, app(rk, name, ts...))
 	}
-	c.declareFun(fv.Sym, sorts, rk)
-	return app(rk, fv.Sym, ts...)
+	if n == 1 {
+		return out[0]
+	}
+	return out
 }
 
 func atoi(s string) int {
